@@ -163,6 +163,15 @@ def check_joint(r, case):
                     r.fail("joint-result", f"joint {slots} in {st.to_json()}: apply_actions gave {show(got)}, the members in "
                            f"sequence (any order) give {want.to_json()}", want.to_json(), show(got), tags=tags)
                     return
+                # allowing inapplicable actions changes nothing when every member is applicable
+                got_a = lib_apply(w, st, slots, allow=True)
+                r.count("transitions")
+                if isinstance(got_a, Raised) or not same_state(got_a, want):
+                    r.outcome("joint-differs")
+                    r.fail("joint-result", f"joint {slots} in {st.to_json()} with allow_inapplicable_actions=True (every member "
+                           f"is applicable): apply_actions gave {show(got_a)}, expected {want.to_json()}", want.to_json(),
+                           show(got_a), tags=tags + ["allow"])
+                    return
             r.outcome("joint-ok")
         elif sum(1 for x in app if not x) == 1:
             for order in slot_orders[:2]:
@@ -249,6 +258,30 @@ def check_trajectory(r, case):
     # a state in which the parameterless action is applicable, reached in one step
     variants = [(p, st, "") for p, st in plans]
     variants += [(p, st, " ") for p, st in plans if any(c is not None and not c[1] for j in p for c in j)]
+    # the refusal switch is a property of the call, not of the exporter: strict, lenient, strict again on one exporter
+    bad = None
+    for joint in product(*[[None] + w.per[a] for a in w.agents]):
+        members = [c for c in joint if c is not None]
+        try:
+            apps = [applicable(w.S, w.S.actions[n], a, s0, w.objs) for n, a in members]
+        except (Inconsistent, RefUndefined):
+            continue
+        if members and sum(1 for x in apps if not x) == 1:
+            bad = joint
+            break
+    if bad is not None:
+        exp3 = MultiAgentTrajectoryExporter(w.D)
+        outs = []
+        for allow in (False, True, False):
+            res = guard(lambda: exp3.parse_plan(parse_problem(w.ptext, w.D), action_sequence=[render(bad)],
+                                                allow_inapplicable_actions=allow))
+            outs.append("refused" if isinstance(res, Raised) else "accepted")
+            r.count("histories")
+        if outs != ["refused", "accepted", "refused"]:
+            r.fail("refusal", f"joint plan {[render(bad)]} (one member inapplicable in the initial state) on ONE exporter with "
+                   f"allow_inapplicable_actions = False, True, False: {outs}, expected ['refused', 'accepted', 'refused']",
+                   ["refused", "accepted", "refused"], outs, tags=[case["domain"], "trajectory", "lenient-then-strict"])
+            return
     for plan, states, pad in variants:
         lines = [render(j, pad) for j in plan]
         exp = w.__dict__.setdefault("_ma_exporter", MultiAgentTrajectoryExporter(w.D))  # one exporter for all plans
